@@ -6,7 +6,9 @@ package server
 
 import (
 	"encoding/json"
+	"net/url"
 	"strings"
+	"unicode/utf8"
 
 	"github.com/sanonone/kektordb/internal/verifkit"
 )
@@ -23,8 +25,26 @@ func (g *c19G) knownName(name string) string {
 
 // applyKnown rewrites known-finding shapes in the (possibly mutated) fields of a request.
 func (g *c19G) applyKnown(r c19Route, fs []c19KV) {
+	if r.Path == "/graph/actions/find-path" && verifkit.Known("find-path-unbounded-depth") {
+		for i := range fs {
+			var d float64
+			if fs[i].k == "max_depth" && json.Unmarshal([]byte(fs[i].v), &d) == nil && d > 100000 {
+				fs[i].v = "7"
+				g.excluded = append(g.excluded, "find-path-unbounded-depth")
+			}
+		}
+	}
 	if c19IsCreate(r) {
 		for i := range fs {
+			// finding "hnsw-params-unvalidated": m = 1 makes 1/ln(m) infinite; an
+			// m or ef_construction near the int64 range overflows slice capacities
+			if (fs[i].k == "m" || fs[i].k == "ef_construction") && verifkit.Known("hnsw-params-unvalidated") {
+				var m float64
+				if json.Unmarshal([]byte(fs[i].v), &m) == nil && ((fs[i].k == "m" && m == 1) || m > 1e12) {
+					fs[i].v = "2"
+					g.excluded = append(g.excluded, "hnsw-params-unvalidated")
+				}
+			}
 			if fs[i].k != "index_name" {
 				continue
 			}
@@ -36,4 +56,35 @@ func (g *c19G) applyKnown(r c19Route, fs []c19KV) {
 			}
 		}
 	}
+}
+
+// knownTarget neutralises finding "path-invalid-utf8": a request path that
+// percent-decodes to bytes that are not valid UTF-8.
+func (g *c19G) knownTarget(target string) string {
+	if !verifkit.Known("path-invalid-utf8") {
+		return target
+	}
+	p, q, hasQ := strings.Cut(target, "?")
+	dec, err := url.PathUnescape(p)
+	if err != nil || utf8.ValidString(dec) {
+		return target
+	}
+	g.excluded = append(g.excluded, "path-invalid-utf8")
+	var b strings.Builder
+	for i := 0; i < len(p); i++ {
+		if p[i] == '%' && i+2 < len(p) && c19Hex(p[i+1]) >= 8 && c19Hex(p[i+2]) >= 0 {
+			b.WriteString("%7E")
+			i += 2
+			continue
+		}
+		if p[i] >= 0x80 {
+			b.WriteString("%7E")
+			continue
+		}
+		b.WriteByte(p[i])
+	}
+	if hasQ {
+		return b.String() + "?" + q
+	}
+	return b.String()
 }
